@@ -816,6 +816,15 @@ pub fn c01(rep: &mut Report) {
     rep.agg.notes.push(format!("virtual 4 GiB source wall {:.1}s", t0.elapsed().as_secs_f64()));
     sweep(rep, Judge::RoundTrip);
     rep.agg.notes.push(format!("sweep wall {:.1}s", t0.elapsed().as_secs_f64()));
+    // "yields exactly the source" holds for a clone that updates a prior output in place too: all (prior layout, target)
+    // pairs of <= 4 chunks of sizes 1-3 through the real planner and executor, judged by the final bytes
+    {
+        let mut l0 = Agg::default();
+        crate::clonechecks::c03_l0(4, 64, &mut l0);
+        l0.classes.retain(|k, _| k == "success-with-wrong-output" || k == "valid-clone-failed" || k.starts_with("panic"));
+        l0.samples.clear();
+        rep.agg.merge(l0);
+    }
     let results = run_sched_legs(rep, Judge::RoundTrip, &|_| true);
     validate_r1(rep, &results);
     let ev = rep.agg.get("library_roundtrips") + rep.agg.get("cli_roundtrips") + rep.agg.get("schedules");
@@ -1054,6 +1063,9 @@ pub fn accessor_check(bytes: &[u8], agg: &mut Agg, detail: &dyn Fn(&str, Value) 
 }
 
 pub fn replay(pid: &str, v: &Value) -> bool {
+    if v.get("level").and_then(|l| l.as_str()) == Some("L0") {
+        return crate::clonechecks::replay("C03", v);
+    }
     if let Some(list) = v.get("distinct_archives").and_then(|l| l.as_array()) {
         // C12: replay each recorded schedule straight and compare the archives they produce
         let mut keys = BTreeSet::new();
